@@ -139,7 +139,7 @@ def gen_ops(rng, n_geos):
 
 def run(tier):
   ck = Check('C10', tier)
-  ck.prove('props/C10.v', gen_targets=searchfam.GEN_TARGETS + ['exhaustive', 'results'])
+  ck.prove('props/C10.v', gen_targets=searchfam.GEN_TARGETS_ALL)
   rng = random.Random(ck.seed * 43 + 10)
   n = 200 if tier == 'quick' else 3000
   jobs = []
